@@ -19,6 +19,7 @@ import (
 // returns the object at the end.
 func VerifC08LockedStaysRetrievable() {
 	ctx := context.Background()
+	verifOrderOnce = vrt.Param("ORDERS") == 0 // quick: one visiting order per run; thorough: every call draws its own
 	w := vwNew(2, 10)
 	for i := range w.shards {
 		w.shards[i].VerifSetExpiredCallback(w.e.processExpiredObjects)
